@@ -579,6 +579,26 @@ theorem penalization_method_dispatch (label : String) (terms : List (Label × In
         bqmIneqFull label terms lam c lb ub cross m = .ok bag sl)) :=
   Pen.method_dispatch label terms lam c lb ub cross m
 
+/-- **the energy the BQM method adds, as coded, for either value of `cross_zero`**: `λ·(Σaᵢzᵢ + Σbⱼsⱼ − ub_c)²` over the
+    returned slack terms `(sⱼ, bⱼ)` at every 0/1 sample — with `cross_zero_bqm_as_coded` this says exactly which sums get
+    penalty 0 when `cross_zero=True`: `[lb_c, ub_c]` and (if the extra variable was created) `[0, S]` -/
+theorem inequality_energy_as_coded_any_cross (label : String) (terms : List (Label × Int)) (lam : Rat) (c lb ub : Int) (cross : Bool) :
+    match bqmIneq label terms lam c lb ub cross with
+    | .ok bag sl => ∀ z, Bin01 z →
+        evalBag (toRat z) bag = lam * (((isum z terms + isum z sl - min (sumPos (terms.map (·.2))) (ub - c))
+          * (isum z terms + isum z sl - min (sumPos (terms.map (·.2))) (ub - c)) : Int) : Rat)
+    | _ => True :=
+  Pen.bqmIneq_energy label terms lam c lb ub cross
+
+/-- `cross_zero=True` as coded for the DQM log2 method: one more two-case variable whose case 1 carries `ub_c` (not
+    `ub_c − S`), created whenever `lb_c > 0 or ub_c < 0` (no inner guard) — over the extracted constants -/
+theorem cross_zero_dqm_as_coded (label : String) (ubc lbc : Int) (S : Nat) :
+    (dqmSlack label "log2" ubc lbc S true).map (fun v => (v.label, v.ncases, v.cases)) =
+      (dqmSlack label "log2" ubc lbc S false).map (fun v => (v.label, v.ncases, v.cases)) ++
+        (if zeroConstraintBy dqmZeroNeedsPositive true ubc lbc S then
+          [(s!"slack_{label}_{Nat.log2 S + 1}", 2, [(1, zeroCoefBy dqmZeroCoef ubc S)])] else []) :=
+  Pen.dqmSlack_cross_labels label ubc lbc S
+
 /-- the extracted option surface: methods, defaults (`lb = int64 min` stands for −∞), coefficient / guard of `cross_zero` in
     the two implementations (they DIFFER: BQM `ub_c − S` guarded by `> 0`, DQM `ub_c` unguarded) -/
 theorem inequality_options_from_source :
